@@ -265,9 +265,27 @@ struct ConnLog {
     backend_rejected: Option<String>,
     /// the backend answered a HEAD request as soon as its head was complete, before the body sozu announced had arrived
     early_head_answers: usize,
+    /// interim responses (100 Continue / 103 Early Hints) the backend sent on this connection
+    interims_sent: usize,
     /// h2c only: decoded requests
     h2reqs: Vec<Value>,
     h2errors: Vec<String>,
+}
+
+/// What the environment of a lane's current probe does besides answering (set by the lane before the probe is sent):
+/// `interim`: 0, or the status (100 / 103) of an interim response the backends send of their own accord as soon as they hold a
+/// request head (`Expect: 100-continue` is answered with `100 Continue` whatever this says);
+/// `hold`: the backends keep their final answers back while this is set (at most 1.5 s).
+#[derive(Default)]
+struct LaneCtl {
+    interim: AtomicU64,
+    hold: AtomicBool,
+}
+impl LaneCtl {
+    fn wait_release(&self) {
+        let t0 = Instant::now();
+        while self.hold.load(Ordering::SeqCst) && t0.elapsed() < Duration::from_millis(1500) { std::thread::sleep(Duration::from_micros(500)); }
+    }
 }
 
 struct Backend {
@@ -293,7 +311,7 @@ fn barrier(b: &Backend, n: u64) -> bool {
     true
 }
 
-fn spawn_backend(kind: &'static str, tag: String, epoch: Arc<AtomicU64>, stop: Arc<AtomicBool>) -> Backend {
+fn spawn_backend(kind: &'static str, tag: String, epoch: Arc<AtomicU64>, ctl: Arc<LaneCtl>, stop: Arc<AtomicBool>) -> Backend {
     let listener = loop {
         let a = free_addr();
         if let Ok(l) = TcpListener::bind(a) { break l; }
@@ -309,12 +327,13 @@ fn spawn_backend(kind: &'static str, tag: String, epoch: Arc<AtomicU64>, stop: A
             let Ok(s) = s else { continue };
             let idx = {
                 let mut l = logs2.lock().unwrap();
-                l.push(ConnLog { epoch: epoch.load(Ordering::SeqCst), bytes: Vec::new(), closed: false, backend_rejected: None, early_head_answers: 0, h2reqs: Vec::new(), h2errors: Vec::new() });
+                l.push(ConnLog { epoch: epoch.load(Ordering::SeqCst), bytes: Vec::new(), closed: false, backend_rejected: None, early_head_answers: 0, interims_sent: 0, h2reqs: Vec::new(), h2errors: Vec::new() });
                 l.len() - 1
             };
             let logs3 = logs2.clone();
             let tag = tag.clone();
             let bs = barrier_seen2.clone();
+            let ctl = ctl.clone();
             std::thread::spawn(move || {
                 // marker connection of the harness?
                 let mut peek = [0u8; 8];
@@ -332,19 +351,25 @@ fn spawn_backend(kind: &'static str, tag: String, epoch: Arc<AtomicU64>, stop: A
                     bs.fetch_max(n, Ordering::SeqCst);
                     return;
                 }
-                if kind == "h2c" { serve_h2c(s, idx, logs3, tag) } else { serve_h1(s, idx, logs3, tag) }
+                if kind == "h2c" { serve_h2c(s, idx, logs3, tag, ctl) } else { serve_h1(s, idx, logs3, tag, ctl) }
             });
         }
     });
     Backend { addr, logs, barrier_seen }
 }
 
-fn serve_h1(mut s: TcpStream, idx: usize, logs: Arc<Mutex<Vec<ConnLog>>>, tag: String) {
+fn interim_bytes(status: u64) -> &'static [u8] {
+    if status == 103 { b"HTTP/1.1 103 Early Hints\r\nLink: </s.css>; rel=preload\r\n\r\n" } else { b"HTTP/1.1 100 Continue\r\n\r\n" }
+}
+
+fn serve_h1(mut s: TcpStream, idx: usize, logs: Arc<Mutex<Vec<ConnLog>>>, tag: String, ctl: Arc<LaneCtl>) {
     s.set_read_timeout(Some(Duration::from_secs(20))).ok();
     s.set_nodelay(true).ok();
     let mut answered = 0usize;
     // index of the request that was already answered from its head (HEAD with an announced body still on its way)
     let mut early_for: Option<usize> = None;
+    // index of the request an interim response was already sent for
+    let mut interim_for: Option<usize> = None;
     let mut buf = [0u8; 16384];
     loop {
         match s.read(&mut buf) {
@@ -355,6 +380,16 @@ fn serve_h1(mut s: TcpStream, idx: usize, logs: Arc<Mutex<Vec<ConnLog>>>, tag: S
                 while answered < reqs.len() {
                     if early_for == Some(answered) { early_for = None; answered += 1; continue; }
                     let body = format!("{tag}:{}", reqs[answered].target);
+                    let probe_req = reqs[answered].target != "/sentinel" && reqs[answered].target != "/late" && reqs[answered].method != "HEAD";
+                    // an interim response of the backend's own accord also precedes the answer to a request that arrived whole
+                    let im = ctl.interim.load(Ordering::SeqCst);
+                    if im != 0 && probe_req && interim_for != Some(answered) {
+                        if s.write_all(interim_bytes(im)).is_err() { logs.lock().unwrap()[idx].closed = true; return; }
+                        interim_for = Some(answered);
+                        logs.lock().unwrap()[idx].interims_sent += 1;
+                    }
+                    // the environment may keep the final answer back (trailers held back by the client: see `late`)
+                    if probe_req { ctl.wait_release(); }
                     // The RESPONSE side must stay in step whatever the request method is (C03 is about the request side):
                     //  * HEAD (exactly that token: methods are case-sensitive, RFC 9110 9.1) is answered from the head - the
                     //    Content-Length of the GET representation, no content (RFC 9110 9.3.2);
@@ -373,6 +408,22 @@ fn serve_h1(mut s: TcpStream, idx: usize, logs: Arc<Mutex<Vec<ConnLog>>>, tag: S
                 // the request announces. The connection stays in use: the announced content is still read (it belongs to
                 // this request), and whatever follows it is the next request. If sozu believes the message ended earlier
                 // (or later) than its framing says, the next request it writes on this connection is misread here.
+                // INTERIM response: the head of a request is complete, its content is still to come. `Expect: 100-continue` is
+                // answered with `100 Continue` (RFC 9110 10.1.1); the lane's environment may ask for an interim response of the
+                // backend's own accord (100 / 103). The connection stays in step: the content the head announces is read next.
+                if tail == strict::Tail::Partial("body") && interim_for != Some(reqs.len()) {
+                    let pos = strict::consumed(&all);
+                    let head_end = all[pos..].windows(4).position(|w| w == b"\r\n\r\n").map(|p| pos + p).unwrap_or(all.len());
+                    let head = String::from_utf8_lossy(&all[pos..head_end]).to_ascii_lowercase();
+                    let expects = head.split("\r\n").skip(1).any(|l| l.starts_with("expect:") && l.contains("100-continue"));
+                    let im = ctl.interim.load(Ordering::SeqCst);
+                    let target = head.split(' ').nth(1).unwrap_or("");
+                    if (expects || im != 0) && target != "/sentinel" && target != "/late" && !head.starts_with("head ") {
+                        if s.write_all(interim_bytes(if expects { 100 } else { im })).is_err() { logs.lock().unwrap()[idx].closed = true; return; }
+                        interim_for = Some(reqs.len());
+                        logs.lock().unwrap()[idx].interims_sent += 1;
+                    }
+                }
                 if tail == strict::Tail::Partial("body") && early_for.is_none() {
                     let pos = strict::consumed(&all);
                     if strict::pending_method(&all, pos).as_deref() == Some("HEAD") {
@@ -406,7 +457,7 @@ fn serve_h1(mut s: TcpStream, idx: usize, logs: Arc<Mutex<Vec<ConnLog>>>, tag: S
 
 /// h2c (prior knowledge) recording server: decodes every request sozu sends, checks RFC 9113 section 8 on
 /// the forwarded header list itself, answers 200.
-fn serve_h2c(s: TcpStream, idx: usize, logs: Arc<Mutex<Vec<ConnLog>>>, tag: String) {
+fn serve_h2c(s: TcpStream, idx: usize, logs: Arc<Mutex<Vec<ConnLog>>>, tag: String, ctl: Arc<LaneCtl>) {
     s.set_nodelay(true).ok();
     let mut c = H2Conn::new(s);
     if !c.read_client_preface(Duration::from_secs(20)) {
@@ -444,7 +495,26 @@ fn serve_h2c(s: TcpStream, idx: usize, logs: Arc<Mutex<Vec<ConnLog>>>, tag: Stri
                     let block = std::mem::take(&mut st.block);
                     match c.hp.decode(&block) {
                         Ok(h) => {
-                            if !st.got_headers { st.headers = h; st.got_headers = true; } else { st.trailers = Some(h); }
+                            if !st.got_headers {
+                                // INTERIM response (see serve_h1): HEADERS :status 100 / 103 without END_STREAM, as soon as the
+                                // request head is there and its content is still to come
+                                let get = |n: &[u8]| h.iter().find(|(k, _)| k == n).map(|(_, v)| lossy(v)).unwrap_or_default();
+                                let expects = get(b"expect").to_ascii_lowercase().contains("100-continue");
+                                let im = ctl.interim.load(Ordering::SeqCst);
+                                let path = get(b":path");
+                                // (only with C03_H2C_INTERIM set: sozu takes the final response HEADERS that follow a 1xx HEADERS frame of
+                                //  an HTTP/2 backend for something else and answers RST_STREAM(INTERNAL_ERROR) / 502 - or, on an H1
+                                //  frontend, relays "HTTP/1.1 100 FromH2" with Transfer-Encoding: chunked and nothing after it. A
+                                //  response-side matter (C02's subject), reported to the coordinator; the interim dimension is
+                                //  exercised with HTTP/1.1 backends.)
+                                if !es && (expects || im != 0) && std::env::var("C03_H2C_INTERIM").is_ok() && path != "/sentinel" && path != "/late" && get(b":method") != "HEAD" {
+                                    let code = if expects { "100".to_string() } else { im.to_string() };
+                                    let blk = c.hp.encode(&[(b":status", code.as_bytes())]);
+                                    c.send(&Frame::headers(f.sid, blk, true, false));
+                                    logs.lock().unwrap()[idx].interims_sent += 1;
+                                }
+                                st.headers = h; st.got_headers = true;
+                            } else { st.trailers = Some(h); }
                         }
                         Err(e) => logs.lock().unwrap()[idx].h2errors.push(format!("hpack: {e}")),
                     }
@@ -566,6 +636,7 @@ fn h2_req_json(sid: u32, headers: Vec<(Vec<u8>, Vec<u8>)>, data: usize, trailers
 struct Lane {
     k: usize,
     epoch: Arc<AtomicU64>,
+    ctl: Arc<LaneCtl>,
     host_a: String,
     host_b: String,
     back_a: Backend,
@@ -591,6 +662,10 @@ struct ClientObs {
     raw: String,
     /// which backend tag answered each response (X-Backend)
     answered_by: Vec<String>,
+    /// interim (1xx) responses relayed to the client (H1: on the connection; H2: on the probe's stream)
+    interims: usize,
+    /// `late` probes: the backend held the head and all the DATA when the trailer frame was sent
+    held: bool,
 }
 
 /// Minimal response splitter for what comes back on the H1 client connection.
@@ -615,7 +690,7 @@ fn split_responses(buf: &[u8]) -> (Vec<(u16, String, usize)>, usize) {
             // the recording backend marks its answers to HEAD (Content-Length of the representation, no content)
             if ll.starts_with("x-no-content:") { no_content = true; }
         }
-        if no_content { cl = 0; }
+        if no_content || (100..200).contains(&code) { cl = 0; }
         if rest.len() < he + 4 + cl { return (out, pos); }
         out.push((code, by, he + 4 + cl));
         pos += he + 4 + cl;
@@ -627,7 +702,10 @@ fn split_responses(buf: &[u8]) -> (Vec<(u16, String, usize)>, usize) {
 /// (or after `wait` without one).
 /// `after_first`: the rest of the probe (the body its head announces), sent once the first answer arrived - a backend that
 /// answers from the request head - or after a short wait without one; then the sentinel (non-pipelined mode only).
-fn h1_client(addr: SocketAddr, probe_segments: &[Vec<u8>], after_first: &[u8], sentinel: &[u8], pipelined: bool, expect: usize, wait: Duration) -> ClientObs {
+/// `interim_wait`: the rest of the probe is sent as soon as ANY response head arrived - an interim `100 Continue` / `103` relayed
+/// by sozu, or a final answer - or after 300 ms without one (interim responses are never counted as answers).
+#[allow(clippy::too_many_arguments)]
+fn h1_client(addr: SocketAddr, probe_segments: &[Vec<u8>], after_first: &[u8], sentinel: &[u8], pipelined: bool, expect: usize, wait: Duration, interim_wait: bool) -> ClientObs {
     let mut obs = ClientObs::default();
     let Ok(mut s) = TcpStream::connect_timeout(&addr, Duration::from_secs(2)) else { obs.closed = true; obs.raw = "connect failed".into(); return obs; };
     s.set_nodelay(true).ok();
@@ -639,9 +717,12 @@ fn h1_client(addr: SocketAddr, probe_segments: &[Vec<u8>], after_first: &[u8], s
         if s.write_all(seg).is_err() { write_err = true; break; }
         if i + 1 < probe_segments.len() { std::thread::sleep(Duration::from_micros(700)); }
     }
+    let is_final = |r: &(u16, String, usize)| !(100..200).contains(&r.0);
     let mut read_some = |s: &mut TcpStream, got: &mut Vec<u8>, until: Instant, want: usize, obs: &mut ClientObs| {
         loop {
-            if split_responses(got).0.len() >= want { return; }
+            // want == 0: any response head, interim or final
+            let rs = split_responses(got).0;
+            if (want == 0 && !rs.is_empty()) || (want > 0 && rs.iter().filter(|r| is_final(r)).count() >= want) { return; }
             let now = Instant::now();
             if now >= until { obs.timed_out = true; return; }
             s.set_read_timeout(Some((until - now).max(Duration::from_millis(1)))).ok();
@@ -657,7 +738,8 @@ fn h1_client(addr: SocketAddr, probe_segments: &[Vec<u8>], after_first: &[u8], s
         if !write_err { let _ = s.write_all(sentinel); }
         read_some(&mut s, &mut got, Instant::now() + wait, expect, &mut obs);
     } else if !after_first.is_empty() {
-        read_some(&mut s, &mut got, Instant::now() + Duration::from_millis(150), 1, &mut obs);
+        if interim_wait { read_some(&mut s, &mut got, Instant::now() + Duration::from_millis(300), 0, &mut obs); }
+        else { read_some(&mut s, &mut got, Instant::now() + Duration::from_millis(150), 1, &mut obs); }
         if !obs.closed {
             obs.timed_out = false;
             // (a pause: the answer has been relayed; does sozu still know that the announced body is to come?)
@@ -685,7 +767,10 @@ fn h1_client(addr: SocketAddr, probe_segments: &[Vec<u8>], after_first: &[u8], s
         }
     }
     let (rs, _) = split_responses(&got);
-    for (code, by, _) in rs { obs.statuses.push(code.to_string()); obs.answered_by.push(by); }
+    for (code, by, _) in rs {
+        if (100..200).contains(&code) { obs.interims += 1; continue; }
+        obs.statuses.push(code.to_string()); obs.answered_by.push(by);
+    }
     obs.raw = lossy(&got[..got.len().min(600)]);
     obs
 }
@@ -711,19 +796,75 @@ struct H2Probe {
     /// explore mode only: after the HEADERS (and a gap) the client abandons the stream with RST_STREAM(CANCEL) instead of
     /// sending DATA; the sentinel follows after another gap
     rst_mid: bool,
+    /// `interim` cases: DATA / trailers are sent once an interim (1xx) response head arrived on the probe's stream
+    wait_interim: bool,
+    /// `late` cases: the trailer frame is held back until a backend holds the head and the DATA (the backends keep their
+    /// answer back until the trailers were sent)
+    late_trailers: bool,
+}
+
+/// Frames read on the client connection, whenever they are read (while the probe is still being sent, or after)
+#[derive(Default)]
+struct H2Seen {
+    out: BTreeMap<u32, String>,
+    by: BTreeMap<u32, String>,
+    goaway: Option<u32>,
+    log: String,
+    /// interim (1xx) response heads per stream
+    interims: BTreeMap<u32, usize>,
+    late_sent: bool,
+}
+
+fn h2_on_frame(c: &mut H2Conn<h2::TlsStream>, st: &mut H2Seen, f: &Frame) {
+    match f.ty {
+        h2::SETTINGS => { if f.flags & h2::FLAG_ACK == 0 { c.send(&Frame::settings_ack()); } }
+        h2::HEADERS => {
+            match c.hp.decode(&f.payload) {
+                Ok(h) => {
+                    let status = h.iter().find(|(k, _)| k == b":status").map(|(_, v)| lossy(v)).unwrap_or_default();
+                    st.log.push_str(&format!("[HEADERS sid={} status={} es={}]", f.sid, status, f.end_stream()));
+                    // an interim response (RFC 9110 15.2) is not the answer: the final response follows on the same stream
+                    if status.len() == 3 && status.starts_with('1') && !f.end_stream() { *st.interims.entry(f.sid).or_insert(0) += 1; return; }
+                    if let Some((_, v)) = h.iter().find(|(k, _)| k == b"x-backend") { st.by.insert(f.sid, lossy(v)); }
+                    if h.iter().any(|(k, _)| k == b"x-backend-reject") { st.by.insert(f.sid, "backend-reject".into()); }
+                    if f.end_stream() { st.out.insert(f.sid, status); } else { st.out.entry(f.sid).or_insert(format!("~{status}")); }
+                }
+                Err(e) => st.log.push_str(&format!("[HEADERS sid={} undecodable {e}]", f.sid)),
+            }
+        }
+        h2::DATA => {
+            st.log.push_str(&format!("[DATA sid={} len={} es={}]", f.sid, f.payload.len(), f.end_stream()));
+            if f.end_stream() { if let Some(s) = st.out.get_mut(&f.sid) { if let Some(x) = s.strip_prefix('~') { *s = x.to_string(); } } }
+        }
+        h2::RST_STREAM => { let code = f.u32_at(0).unwrap_or(999); st.log.push_str(&format!("[RST sid={} code={}]", f.sid, code)); st.out.insert(f.sid, format!("rst:{code}")); }
+        h2::GOAWAY => { let code = f.u32_at(4).unwrap_or(999); let last = f.u32_at(0).unwrap_or(0) & 0x7fff_ffff; st.log.push_str(&format!("[GOAWAY last={last} code={code}]")); st.goaway = Some(code);
+            for sid in [1u32, 3u32, 5u32] { if sid > last && (sid < 5 || st.late_sent) { st.out.entry(sid).or_insert(format!("goaway:{code}")); } } }
+        h2::WINDOW_UPDATE | h2::PING => {}
+        t => st.log.push_str(&format!("[frame ty={t} sid={}]", f.sid)),
+    }
+}
+
+/// Does a backend connection of the lane's current probe hold a complete request head followed by at least `n` more bytes?
+fn backend_holds(lane: &Lane, epoch: u64, n: usize) -> bool {
+    [&lane.back_a, &lane.back_b].iter().any(|b| b.logs.lock().unwrap().iter().any(|c| c.epoch == epoch
+        && c.bytes.windows(4).position(|w| w == b"\r\n\r\n").is_some_and(|p| c.bytes.len() >= p + 4 + n)))
 }
 
 /// `late`: a further request (stream 5) sent once the probe's stream and the sentinel's were both answered by a backend:
 /// by then the backend connection that carried the probe is back in sozu's pool, so the late request is written on a
 /// connection whose peer may still be waiting for (or have been sent more than) the content the probe announced.
-fn h2_client(addr: SocketAddr, probe: &H2Probe, sentinel_headers: &[(Vec<u8>, Vec<u8>)], late: Option<&[(Vec<u8>, Vec<u8>)]>, sentinel_first: bool, wait: Duration) -> ClientObs {
+/// `pace`: the lane and the epoch of the probe - what `wait_interim` / `late_trailers` look at (backend logs) and act on (hold).
+#[allow(clippy::too_many_arguments)]
+fn h2_client(addr: SocketAddr, probe: &H2Probe, sentinel_headers: &[(Vec<u8>, Vec<u8>)], late: Option<&[(Vec<u8>, Vec<u8>)]>, sentinel_first: bool, wait: Duration, pace: Option<(&Lane, u64)>) -> ClientObs {
     let mut obs = ClientObs::default();
     let mut c = match h2::h2_tls_client(addr, "localhost", Duration::from_secs(3)) {
         Ok(c) => c,
         Err(e) => { obs.closed = true; obs.raw = format!("tls: {e}"); return obs; }
     };
     c.client_preface(&[]);
-    let send_probe = |c: &mut H2Conn<h2::TlsStream>, sid: u32, mid: Option<u32>| {
+    let mut st = H2Seen::default();
+    let mut held = false;
+    let mut send_probe = |c: &mut H2Conn<h2::TlsStream>, st: &mut H2Seen, sid: u32, mid: Option<u32>| {
         let block = c.hp.encode_owned(&probe.headers);
         if probe.split_continuation && block.len() > 2 {
             let cut = block.len() / 2;
@@ -744,14 +885,45 @@ fn h2_client(addr: SocketAddr, probe: &H2Probe, sentinel_headers: &[(Vec<u8>, Ve
             c.send(&Frame::headers(ssid, block, true, true));
             std::thread::sleep(Duration::from_millis(probe.gap_ms.max(25)));
         }
+        // The DATA (and trailers) go out only once an interim response of the backend was relayed on this stream - an event, not
+        // a pause - or the stream was refused, or 400 ms passed without either (no backend reached: a head sozu refuses).
+        if probe.wait_interim && !probe.end_stream_on_headers {
+            let until = Instant::now() + Duration::from_millis(400);
+            while st.interims.get(&sid).is_none() && !st.out.contains_key(&sid) && st.goaway.is_none() && !c.eof {
+                let now = Instant::now();
+                if now >= until { break; }
+                if let Some(f) = c.read_frame(until - now) { h2_on_frame(c, st, &f); }
+            }
+        }
         for (d, es) in &probe.data {
             if probe.gap_ms > 0 { std::thread::sleep(Duration::from_millis(probe.gap_ms)); }
             if probe.pad_data { c.send(&Frame::data_padded(sid, d, 3, *es)); } else { c.send(&Frame::data(sid, d.clone(), *es)); }
         }
         if let Some((t, es)) = &probe.trailers {
             if probe.gap_ms > 0 { std::thread::sleep(Duration::from_millis(probe.gap_ms)); }
+            // The trailer frame is held back until a backend HOLDS the head and all the DATA (an event read from the backend's
+            // log; 300 ms at most: a request sozu refused never gets there): whatever sozu queued for the backend has left its
+            // queue when the trailers are handled. The backends keep their answer back meanwhile (`hold`), so the exchange is
+            // still open on both sides; they are released a moment after the trailers went out.
+            if probe.late_trailers {
+                if let Some((lane, epoch)) = pace {
+                    let total: usize = probe.data.iter().map(|(d, _)| d.len()).sum();
+                    let until = Instant::now() + Duration::from_millis(300);
+                    while Instant::now() < until {
+                        if backend_holds(lane, epoch, total) { held = true; break; }
+                        std::thread::sleep(Duration::from_micros(500));
+                    }
+                    if held { std::thread::sleep(Duration::from_millis(3)); }
+                }
+            }
             let block = c.hp.encode_owned(t);
             c.send(&Frame::headers(sid, block, true, *es));
+            if probe.late_trailers {
+                if let Some((lane, _)) = pace {
+                    std::thread::sleep(Duration::from_millis(40));
+                    lane.ctl.hold.store(false, Ordering::SeqCst);
+                }
+            }
         }
     };
     let send_sentinel = |c: &mut H2Conn<h2::TlsStream>, sid: u32| {
@@ -760,58 +932,40 @@ fn h2_client(addr: SocketAddr, probe: &H2Probe, sentinel_headers: &[(Vec<u8>, Ve
     };
     let (psid, ssid) = if sentinel_first { (3u32, 1u32) } else { (1u32, 3u32) };
     let mid = probe.sentinel_mid && !sentinel_first && !probe.end_stream_on_headers;
-    if sentinel_first { send_sentinel(&mut c, ssid); send_probe(&mut c, psid, None); }
-    else if mid { send_probe(&mut c, psid, Some(ssid)); }
-    else { send_probe(&mut c, psid, None); send_sentinel(&mut c, ssid); }
+    if sentinel_first { send_sentinel(&mut c, ssid); send_probe(&mut c, &mut st, psid, None); }
+    else if mid { send_probe(&mut c, &mut st, psid, Some(ssid)); }
+    else { send_probe(&mut c, &mut st, psid, None); send_sentinel(&mut c, ssid); }
+    if let Some((lane, _)) = pace { lane.ctl.hold.store(false, Ordering::SeqCst); }
     // outcome per stream
-    let mut out: BTreeMap<u32, String> = BTreeMap::new();
-    let mut by: BTreeMap<u32, String> = BTreeMap::new();
-    let mut goaway: Option<u32> = None;
     let mut deadline = Instant::now() + wait;
-    let mut log = String::new();
-    let mut late_sent = false;
-    if probe.rst_mid { out.insert(psid, "cancel".into()); }
+    if probe.rst_mid { st.out.insert(psid, "cancel".into()); }
     loop {
-        let now = Instant::now();
-        if now >= deadline { if !late_sent { obs.timed_out = true; } break; }
-        let Some(f) = c.read_frame(deadline - now) else {
-            if c.eof { obs.closed = true; break; }
-            continue;
-        };
-        match f.ty {
-            h2::SETTINGS => { if f.flags & h2::FLAG_ACK == 0 { c.send(&Frame::settings_ack()); } }
-            h2::HEADERS => {
-                match c.hp.decode(&f.payload) {
-                    Ok(h) => {
-                        let status = h.iter().find(|(k, _)| k == b":status").map(|(_, v)| lossy(v)).unwrap_or_default();
-                        if let Some((_, v)) = h.iter().find(|(k, _)| k == b"x-backend") { by.insert(f.sid, lossy(v)); }
-                        if h.iter().any(|(k, _)| k == b"x-backend-reject") { by.insert(f.sid, "backend-reject".into()); }
-                        log.push_str(&format!("[HEADERS sid={} status={} es={}]", f.sid, status, f.end_stream()));
-                        if f.end_stream() { out.insert(f.sid, status); } else { out.entry(f.sid).or_insert(format!("~{status}")); }
-                    }
-                    Err(e) => log.push_str(&format!("[HEADERS sid={} undecodable {e}]", f.sid)),
-                }
-            }
-            h2::DATA => {
-                log.push_str(&format!("[DATA sid={} len={} es={}]", f.sid, f.payload.len(), f.end_stream()));
-                if f.end_stream() { if let Some(s) = out.get_mut(&f.sid) { if let Some(x) = s.strip_prefix('~') { *s = x.to_string(); } } }
-            }
-            h2::RST_STREAM => { let code = f.u32_at(0).unwrap_or(999); log.push_str(&format!("[RST sid={} code={}]", f.sid, code)); out.insert(f.sid, format!("rst:{code}")); }
-            h2::GOAWAY => { let code = f.u32_at(4).unwrap_or(999); let last = f.u32_at(0).unwrap_or(0) & 0x7fff_ffff; log.push_str(&format!("[GOAWAY last={last} code={code}]")); goaway = Some(code);
-                for sid in [1u32, 3u32, 5u32] { if sid > last && (sid < 5 || late_sent) { out.entry(sid).or_insert(format!("goaway:{code}")); } } }
-            h2::WINDOW_UPDATE | h2::PING => {}
-            t => log.push_str(&format!("[frame ty={t} sid={}]", f.sid)),
+        let both = |st: &H2Seen| st.out.get(&1).is_some_and(|s| !s.starts_with('~')) && st.out.get(&3).is_some_and(|s| !s.starts_with('~'));
+        if !both(&st) {
+            let now = Instant::now();
+            if now >= deadline { if !st.late_sent { obs.timed_out = true; } break; }
+            let Some(f) = c.read_frame(deadline - now) else {
+                if c.eof { obs.closed = true; break; }
+                continue;
+            };
+            h2_on_frame(&mut c, &mut st, &f);
         }
-        // a stream whose headers arrived without END_STREAM completes on DATA+ES (handled above)
-        if out.get(&1).is_some_and(|s| !s.starts_with('~')) && out.get(&3).is_some_and(|s| !s.starts_with('~')) {
-            if late_sent { if out.get(&5).is_some_and(|s| !s.starts_with('~')) { break; } else { continue; } }
+        // a stream whose headers arrived without END_STREAM completes on DATA+ES (handled in h2_on_frame)
+        if both(&st) {
+            if st.late_sent {
+                if st.out.get(&5).is_some_and(|s| !s.starts_with('~')) { break; }
+                let now = Instant::now();
+                if now >= deadline { break; }
+                match c.read_frame(deadline - now) { Some(f) => h2_on_frame(&mut c, &mut st, &f), None => if c.eof { obs.closed = true; break; } }
+                continue;
+            }
             // both answered by a backend (not reset / refused by sozu), connection alive: the late request
-            let served = |sid: u32| by.get(&sid).is_some_and(|b| !b.is_empty());
+            let served = |sid: u32| st.by.get(&sid).is_some_and(|b| !b.is_empty());
             match late {
-                Some(h) if goaway.is_none() && served(psid) && served(ssid) => {
+                Some(h) if st.goaway.is_none() && served(psid) && served(ssid) => {
                     let block = c.hp.encode_owned(h);
                     c.send(&Frame::headers(5, block, true, true));
-                    late_sent = true;
+                    st.late_sent = true;
                     deadline = Instant::now() + wait.min(Duration::from_millis(1500));
                 }
                 _ => break,
@@ -819,15 +973,17 @@ fn h2_client(addr: SocketAddr, probe: &H2Probe, sentinel_headers: &[(Vec<u8>, Ve
         }
     }
     let fin = |sid: u32| -> String {
-        match out.get(&sid) {
+        match st.out.get(&sid) {
             Some(s) => s.clone(),
-            None => if let Some(c) = goaway { format!("goaway:{c}") } else if obs.closed { "closed".into() } else { "none".into() },
+            None => if let Some(c) = st.goaway { format!("goaway:{c}") } else if obs.closed { "closed".into() } else { "none".into() },
         }
     };
     obs.statuses = vec![fin(psid), fin(ssid)];
-    obs.answered_by = vec![by.get(&psid).cloned().unwrap_or_default(), by.get(&ssid).cloned().unwrap_or_default()];
-    if late_sent { obs.statuses.push(fin(5)); obs.answered_by.push(by.get(&5).cloned().unwrap_or_default()); }
-    obs.raw = log;
+    obs.answered_by = vec![st.by.get(&psid).cloned().unwrap_or_default(), st.by.get(&ssid).cloned().unwrap_or_default()];
+    if st.late_sent { obs.statuses.push(fin(5)); obs.answered_by.push(st.by.get(&5).cloned().unwrap_or_default()); }
+    obs.interims = st.interims.get(&psid).copied().unwrap_or(0);
+    obs.held = held;
+    obs.raw = st.log;
     obs
 }
 
@@ -861,6 +1017,8 @@ struct BackObs {
     open_conns: usize,
     /// HEAD requests a backend answered from the head, before the content they announced was there
     early_heads: usize,
+    /// interim responses the backends sent
+    interims: usize,
 }
 
 fn collect_backend(lane: &Lane, epoch: u64, kind: &str, settle: Duration) -> BackObs {
@@ -882,6 +1040,7 @@ fn collect_backend(lane: &Lane, epoch: u64, kind: &str, settle: Duration) -> Bac
             if c.epoch != epoch { continue; }
             if !c.closed { obs.open_conns += 1; }
             obs.early_heads += c.early_head_answers;
+            obs.interims += c.interims_sent;
             obs.raw.push((cl.to_string(), ci, lossy(&c.bytes[..c.bytes.len().min(1500)]), c.closed));
             if kind == "h2c" {
                 for e in &c.h2errors { obs.anomalies.push((cl.into(), ci, "h2-error".into(), e.clone())); }
@@ -916,7 +1075,7 @@ fn back_json(b: &BackObs) -> Value {
     json!({
         "requests": b.reqs.iter().map(|r| json!({"cluster": r.cluster, "conn": r.conn, "method": r.method, "target": r.target, "host": r.host, "framing": r.framing,
             "body_len": r.body_len, "body": lossy(&r.body[..r.body.len().min(80)]), "sozu_ids": r.sozu_ids, "names": r.names, "trailers": r.trailers, "complete": r.complete, "errors": r.errors, "chunks": r.chunks})).collect::<Vec<_>>(),
-        "anomalies": b.anomalies, "raw": b.raw, "open_conns": b.open_conns, "early_head_answers": b.early_heads })
+        "anomalies": b.anomalies, "raw": b.raw, "open_conns": b.open_conns, "early_head_answers": b.early_heads, "interims_sent": b.interims })
 }
 
 // =====================================================================================
@@ -942,8 +1101,9 @@ fn setup(nlanes: usize, backend_kind: &'static str, stop: Arc<AtomicBool>) -> (W
         let epoch = Arc::new(AtomicU64::new(0));
         let host_a = format!("a{k}.test");
         let host_b = format!("b{k}.test");
-        let back_a = spawn_backend(backend_kind, "A".into(), epoch.clone(), stop.clone());
-        let back_b = spawn_backend(backend_kind, "B".into(), epoch.clone(), stop.clone());
+        let ctl = Arc::new(LaneCtl::default());
+        let back_a = spawn_backend(backend_kind, "A".into(), epoch.clone(), ctl.clone(), stop.clone());
+        let back_b = spawn_backend(backend_kind, "B".into(), epoch.clone(), ctl.clone(), stop.clone());
         for (cid, host, back) in [(format!("A{k}"), &host_a, &back_a), (format!("B{k}"), &host_b, &back_b)] {
             let cl = Cluster { cluster_id: cid.clone(), http2: if backend_kind == "h2c" { Some(true) } else { None }, ..Default::default() };
             assert!(ok(&w.request(RequestType::AddCluster(cl), t)));
@@ -951,7 +1111,7 @@ fn setup(nlanes: usize, backend_kind: &'static str, stop: Arc<AtomicBool>) -> (W
             assert!(ok(&w.request(RequestType::AddHttpsFrontend(Worker::http_frontend(&cid, front_h2, host, "/")), t)));
             assert!(ok(&w.request(RequestType::AddBackend(Worker::backend(&cid, &format!("{cid}-1"), back.addr)), t)));
         }
-        lanes.push(Arc::new(Lane { k, epoch, host_a, host_b, back_a, back_b }));
+        lanes.push(Arc::new(Lane { k, epoch, ctl, host_a, host_b, back_a, back_b }));
     }
     (w, Env { front_h1, front_h2, backend_kind }, lanes)
 }
@@ -991,16 +1151,26 @@ fn explore(env: &Env, lane: &Lane, line: &Value) -> Value {
         p.gap_ms = line["gap_ms"].as_u64().unwrap_or(0);
         p.sentinel_mid = line["sentinel_mid"].as_bool().unwrap_or(false);
         p.rst_mid = line["rst_mid"].as_bool().unwrap_or(false);
+        p.wait_interim = line["wait_interim"].as_bool().unwrap_or(false);
+        p.late_trailers = line["late_trailers"].as_bool().unwrap_or(false);
+        lane.ctl.interim.store(line["interim"].as_u64().unwrap_or(0), Ordering::SeqCst);
+        lane.ctl.hold.store(p.late_trailers, Ordering::SeqCst);
         let late = late_h2(lane);
-        h2_client(env.front_h2, &p, &sentinel_h2(lane), if line["late"].as_bool().unwrap_or(true) { Some(&late) } else { None }, line["sentinel_first"].as_bool().unwrap_or(false), wait)
+        let o = h2_client(env.front_h2, &p, &sentinel_h2(lane), if line["late"].as_bool().unwrap_or(true) { Some(&late) } else { None }, line["sentinel_first"].as_bool().unwrap_or(false), wait, Some((lane, epoch)));
+        lane.ctl.hold.store(false, Ordering::SeqCst);
+        o
     } else {
         let raw = bytes_of(&subst(line["raw"].as_str().unwrap()));
         let pipelined = line["pipelined"].as_bool().unwrap_or(true);
         let sent = if line["no_sentinel"].as_bool().unwrap_or(false) { vec![] } else { sentinel_h1(lane) };
-        h1_client(env.front_h1, &[raw], &[], &sent, pipelined, 2, wait)
+        lane.ctl.interim.store(line["interim"].as_u64().unwrap_or(0), Ordering::SeqCst);
+        // "after": the rest of the probe, sent once an interim (or final) response arrived
+        let after = bytes_of(&subst(line["after"].as_str().unwrap_or("")));
+        h1_client(env.front_h1, &[raw], &after, &sent, pipelined && after.is_empty(), 2, wait, !after.is_empty())
     };
     let bobs = collect_backend(lane, epoch, env.backend_kind, Duration::from_millis(800));
-    json!({"client": {"statuses": cobs.statuses, "by": cobs.answered_by, "closed": cobs.closed, "timed_out": cobs.timed_out, "raw": cobs.raw}, "backend": back_json(&bobs)})
+    lane.ctl.interim.store(0, Ordering::SeqCst);
+    json!({"client": {"statuses": cobs.statuses, "by": cobs.answered_by, "closed": cobs.closed, "timed_out": cobs.timed_out, "interims": cobs.interims, "held": cobs.held, "raw": cobs.raw}, "backend": back_json(&bobs)})
 }
 
 
@@ -1039,6 +1209,10 @@ struct Concrete {
     spec_method: String,
     /// H1 cases with `early`: offset of the body in `h1_bytes`; the head is sent alone, the body after the first answer
     body_after_answer: Option<usize>,
+    /// `interim` cases: the rest of the probe is sent once an interim response was relayed (H1: `body_after_answer` is set);
+    /// `interim_status`: 0, or the interim response the backends send of their own accord for this probe (100 / 103)
+    interim_wait: bool,
+    interim_status: u64,
     /// the body bytes a backend must read if the probe is forwarded
     body: Vec<u8>,
     /// field names the client sent as field names (lower-case) - anything else read by a backend that
@@ -1151,6 +1325,15 @@ fn concretise_h1(c: &Value, code: &Value, lane: &Lane, rng: &mut Rng, allow_pipe
         };
         lines.push(l);
     }
+    // INTERIM cases: `Expect: 100-continue` (answered by the backend with `100 Continue`), or an interim response of the backend's
+    // own accord; either way the body is sent once sozu relayed it
+    let interim = c["interim"].as_str().unwrap_or("");
+    let mut interim_status = 0u64;
+    match interim {
+        "expect" => { names.push("expect".into()); lines.push(format!("{}: {}\r\n", rng.pick(&["Expect", "expect"]), rng.pick(&["100-continue", "100-Continue"]))); }
+        "always" => interim_status = if rng.chance(50) { 103 } else { 100 },
+        _ => {}
+    }
     let mut hostlines: Vec<String> = hosts.iter().map(|h| host_spelling(rng, "host", h)).collect();
     let pos = rng.below(3);
     let mut all: Vec<String> = Vec::new();
@@ -1190,7 +1373,7 @@ fn concretise_h1(c: &Value, code: &Value, lane: &Lane, rng: &mut Rng, allow_pipe
     }
     let mut bytes = bytes_of(&head);
     bytes.extend_from_slice(&wire_body);
-    let early = c["early"].as_bool().unwrap_or(false) && !wire_body.is_empty();
+    let early = (c["early"].as_bool().unwrap_or(false) || !interim.is_empty()) && !wire_body.is_empty();
     let body_after_answer = if early { Some(bytes.len() - wire_body.len()) } else { None };
     let pipelined = rng.chance(60) && allow_pipelining && !early;
     let sentinel_first = pipelined && rng.chance(35);
@@ -1209,8 +1392,8 @@ fn concretise_h1(c: &Value, code: &Value, lane: &Lane, rng: &mut Rng, allow_pipe
     }
     cuts.sort(); cuts.dedup(); cuts.retain(|&x| x > 0 && x < bytes.len());
     desc.push_str(&format!("pipelined={pipelined} sentinel_first={sentinel_first} cuts={cuts:?}"));
-    desc.push_str(&format!(" method={method} body_after_answer={body_after_answer:?}"));
-    Concrete { h1_bytes: bytes, h2: H2Probe::default(), pipelined, sentinel_first, cuts, target, spec_target, method, spec_method, body_after_answer, body, names, trailers, desc }
+    desc.push_str(&format!(" method={method} body_after_answer={body_after_answer:?} interim={interim:?}/{interim_status}"));
+    Concrete { h1_bytes: bytes, h2: H2Probe::default(), pipelined, sentinel_first, cuts, target, spec_target, method, spec_method, body_after_answer, interim_wait: !interim.is_empty(), interim_status, body, names, trailers, desc }
 }
 
 fn concretise_h2(c: &Value, lane: &Lane, rng: &mut Rng) -> Concrete {
@@ -1265,6 +1448,13 @@ fn concretise_h2(c: &Value, lane: &Lane, rng: &mut Rng) -> Concrete {
         names.push(k.to_ascii_lowercase());
         regs.push((bytes_of(&k), bytes_of(&v)));
     }
+    let interim = c["interim"].as_str().unwrap_or("");
+    let mut interim_status = 0u64;
+    match interim {
+        "expect" => { names.push("expect".into()); regs.insert(rng.below(regs.len() + 1), (b("expect"), b(rng.pick(&["100-continue", "100-Continue"])))); }
+        "always" => interim_status = if rng.chance(50) { 103 } else { 100 },
+        _ => {}
+    }
     let mut headers: Vec<(Vec<u8>, Vec<u8>)> = match ps {
         "noauth" => vec![m, s, p.clone()], "nomethod" => vec![s, a, p.clone()], "nopath" => vec![m, s, a], "noscheme" => vec![m, a, p.clone()],
         // the form RFC 9113 8.5 prescribes for CONNECT: neither :scheme nor :path
@@ -1315,9 +1505,12 @@ fn concretise_h2(c: &Value, lane: &Lane, rng: &mut Rng) -> Concrete {
     let sentinel_first = rng.chance(30) && !pr.rst_mid;
     // the sentinel between the probe's HEADERS and its DATA / trailers (a quarter of the probes that have any)
     pr.sentinel_mid = !sentinel_first && !pr.end_stream_on_headers && !pr.rst_mid && rng.chance(25);
-    let desc = format!("cont={} pad={} gap={}ms sentinel_first={sentinel_first} sentinel_mid={} rst_mid={} method={method_sent}", pr.split_continuation, pr.pad_data, pr.gap_ms, pr.sentinel_mid, pr.rst_mid);
+    pr.wait_interim = !interim.is_empty();
+    pr.late_trailers = c["late"].as_bool().unwrap_or(false) && pr.trailers.is_some();
+    if pr.late_trailers { pr.sentinel_mid = false; }
+    let desc = format!("cont={} pad={} gap={}ms sentinel_first={sentinel_first} sentinel_mid={} rst_mid={} method={method_sent} interim={interim:?}/{interim_status} late_trailers={}", pr.split_continuation, pr.pad_data, pr.gap_ms, pr.sentinel_mid, pr.rst_mid, pr.late_trailers);
     let trailers = if matches!(tr, "plain" | "ident") { vec!["x-t".to_string()] } else if tr == "framing" { vec!["x-t".to_string(), "content-length".into(), "host".into()] } else { vec![] };
-    Concrete { h1_bytes: vec![], h2: pr, pipelined: true, sentinel_first, cuts: vec![], target, spec_target, method: method_sent, spec_method, body_after_answer: None, body, names, trailers, desc }
+    Concrete { h1_bytes: vec![], h2: pr, pipelined: true, sentinel_first, cuts: vec![], target, spec_target, method: method_sent, spec_method, body_after_answer: None, interim_wait: !interim.is_empty(), interim_status, body, names, trailers, desc }
 }
 
 // =====================================================================================
@@ -1399,7 +1592,7 @@ fn judge(lane: &Lane, case: &Value, conc: &Concrete, cobs: &ClientObs, bobs: &Ba
     //  is not in the spec's understood-list: it is checked on its own right below and then set aside)
     let complete: Vec<&SeenReq> = bobs.reqs.iter().filter(|r| r.complete && r.target != "/late").collect();
     let observed_list: Vec<Value> = complete.iter().map(|r| abstract_req(lane, r, conc, h2c)).collect();
-    let ctx = |extra: Value| -> Value { json!({"observed_class": class, "client": {"statuses": cobs.statuses, "by": cobs.answered_by, "closed": cobs.closed, "timed_out": cobs.timed_out},
+    let ctx = |extra: Value| -> Value { json!({"observed_class": class, "client": {"statuses": cobs.statuses, "by": cobs.answered_by, "closed": cobs.closed, "timed_out": cobs.timed_out, "interims": cobs.interims, "trailers_held_back": cobs.held},
         "backend_read": observed_list, "anomalies": bobs.anomalies, "extra": extra}) };
     for r in bobs.reqs.iter().filter(|r| r.target == "/late") {
         let as_sent = r.method == "GET" && r.complete && r.body_len == 0 && r.cluster == "A" && (h2c || r.framing == "cl");
@@ -1515,7 +1708,9 @@ fn run_case(env: &Env, lane: &Lane, case: &Value, seed: u64, idx: u64, variant: 
     let wait = Duration::from_millis(wait_ms);
     let (conc, cobs, sent) = if c["front"] == "h1" {
         // (H1 front -> h2c backend: a pipelined second request is never answered - C02's subject - so no pipelining there)
-        let conc = concretise_h1(c, &case["code"], lane, &mut rng, !h2c);
+        let mut conc = concretise_h1(c, &case["code"], lane, &mut rng, !h2c);
+        // (an h2c backend sends no interim response - see serve_h2c: nothing to wait for)
+        if h2c && std::env::var("C03_H2C_INTERIM").is_err() { conc.interim_wait = false; }
         let mut segs: Vec<Vec<u8>> = Vec::new();
         let mut prev = 0;
         for &cut in &conc.cuts { segs.push(conc.h1_bytes[prev..cut].to_vec()); prev = cut; }
@@ -1530,7 +1725,8 @@ fn run_case(env: &Env, lane: &Lane, case: &Value, seed: u64, idx: u64, variant: 
             Some(off) => (vec![conc.h1_bytes[..off].to_vec()], conc.h1_bytes[off..].to_vec()),
             None => (segs, vec![]),
         };
-        let mut cobs = h1_client(env.front_h1, &segs, &after_first, &sent_after, conc.pipelined, expect, wait);
+        lane.ctl.interim.store(conc.interim_status, Ordering::SeqCst);
+        let mut cobs = h1_client(env.front_h1, &segs, &after_first, &sent_after, conc.pipelined, expect, wait, conc.interim_wait);
         if conc.sentinel_first {
             // the first answer is the sentinel's: what is judged is the answer to the probe
             if !cobs.statuses.is_empty() { cobs.statuses.remove(0); cobs.answered_by.remove(0); }
@@ -1538,9 +1734,14 @@ fn run_case(env: &Env, lane: &Lane, case: &Value, seed: u64, idx: u64, variant: 
         let sent = lossy(&conc.h1_bytes);
         (conc, cobs, sent)
     } else {
-        let conc = concretise_h2(c, lane, &mut rng);
+        let mut conc = concretise_h2(c, lane, &mut rng);
+        if h2c && std::env::var("C03_H2C_INTERIM").is_err() { conc.h2.wait_interim = false; }
         let late = late_h2(lane);
-        let cobs = h2_client(env.front_h2, &conc.h2, &sentinel_h2(lane), Some(&late), conc.sentinel_first, wait);
+        lane.ctl.interim.store(conc.interim_status, Ordering::SeqCst);
+        // `late` trailers: the H1 backends keep their answer back until the trailers went out (an h2c backend answers at END_STREAM)
+        lane.ctl.hold.store(conc.h2.late_trailers && !h2c, Ordering::SeqCst);
+        let cobs = h2_client(env.front_h2, &conc.h2, &sentinel_h2(lane), Some(&late), conc.sentinel_first, wait, Some((lane, epoch)));
+        lane.ctl.hold.store(false, Ordering::SeqCst);
         let sent = format!("headers={:?} data={:?} trailers={:?} es_on_headers={}",
             conc.h2.headers.iter().map(|(k, v)| format!("{}: {}", lossy(k), lossy(v))).collect::<Vec<_>>(),
             conc.h2.data.iter().map(|(d, es)| format!("{}{}", lossy(d), if *es { "/ES" } else { "" })).collect::<Vec<_>>(),
@@ -1548,6 +1749,7 @@ fn run_case(env: &Env, lane: &Lane, case: &Value, seed: u64, idx: u64, variant: 
         (conc, cobs, sent)
     };
     let bobs = collect_backend(lane, epoch, env.backend_kind, Duration::from_millis(1500));
+    lane.ctl.interim.store(0, Ordering::SeqCst);
     let (class, verdicts) = judge(lane, case, &conc, &cobs, &bobs, h2c, deviations);
     CaseOutcome { class, verdicts, cobs, bobs, conc_desc: conc.desc.clone(), sent }
 }
@@ -1569,10 +1771,14 @@ fn replay(seed: u64, nlanes: usize, backend_kind: &'static str, variants: u64, d
     let samples: Arc<Mutex<Vec<Value>>> = Arc::new(Mutex::new(Vec::new()));
     let distinct: Arc<Mutex<std::collections::BTreeSet<String>>> = Arc::new(Mutex::new(Default::default()));
     let dead = Arc::new(AtomicBool::new(false));
+    // vacuity counters of the environment dimensions: [interim cases, of which an interim response reached the client,
+    // late-trailer cases, of which the backend held head + DATA when the trailers were sent]
+    let envc: Arc<[AtomicU64; 4]> = Arc::new(Default::default());
     let t0 = Instant::now();
     let mut handles = Vec::new();
     for lane in lanes.iter().cloned() {
         let n_retries = n_retries.clone();
+        let envc = envc.clone();
         let (env, cases, next, n_probes, violations, classes, vclasses, samples, distinct, dead, deviations) =
             (env.clone(), cases.clone(), next.clone(), n_probes.clone(), violations.clone(), classes.clone(), vclasses.clone(), samples.clone(), distinct.clone(), dead.clone(), deviations.clone());
         handles.push(std::thread::spawn(move || {
@@ -1625,6 +1831,8 @@ fn replay(seed: u64, nlanes: usize, backend_kind: &'static str, variants: u64, d
                         o.verdicts.retain(|v| !v.class.contains("class-not-admissible"));
                     }
                     n_probes.fetch_add(1, Ordering::Relaxed);
+                    if case["c"]["interim"].is_string() { envc[0].fetch_add(1, Ordering::Relaxed); if o.cobs.interims > 0 { envc[1].fetch_add(1, Ordering::Relaxed); } }
+                    if case["c"]["late"] == true { envc[2].fetch_add(1, Ordering::Relaxed); if o.cobs.held { envc[3].fetch_add(1, Ordering::Relaxed); } }
                     *classes.lock().unwrap().entry(format!("{}:{}", case["c"]["front"].as_str().unwrap(), o.class)).or_insert(0) += 1;
                     // non-trivial = differs from the plain valid skeleton in at least one token
                     let c = &case["c"];
@@ -1633,7 +1841,7 @@ fn replay(seed: u64, nlanes: usize, backend_kind: &'static str, variants: u64, d
                     if !trivial { distinct.lock().unwrap().insert(format!("{}|{}", case["c"], o.class)); }
                     if force.is_some() {
                         vh::util::emit(&json!({"kind": "replayed", "case": case["c"], "sent": o.sent, "how": o.conc_desc, "observed_class": o.class,
-                            "client": {"statuses": o.cobs.statuses, "by": o.cobs.answered_by, "closed": o.cobs.closed, "timed_out": o.cobs.timed_out, "raw": o.cobs.raw},
+                            "client": {"statuses": o.cobs.statuses, "by": o.cobs.answered_by, "closed": o.cobs.closed, "timed_out": o.cobs.timed_out, "interims": o.cobs.interims, "held": o.cobs.held, "raw": o.cobs.raw},
                             "backend": back_json(&o.bobs), "verdicts": o.verdicts.iter().map(|v| v.class.clone()).collect::<Vec<_>>()}));
                     }
                     if i % 641 == 7 && variant == 0 {
@@ -1675,6 +1883,7 @@ fn replay(seed: u64, nlanes: usize, backend_kind: &'static str, variants: u64, d
     for v in violations.lock().unwrap().iter() { vh::util::emit(v); }
     vh::util::emit(&json!({"kind": "summary", "cases": cases.len(), "probes": n_probes.load(Ordering::SeqCst), "backend": backend_kind, "classes": *classes.lock().unwrap(),
         "violation_classes": *vclasses.lock().unwrap(), "infra_retries": n_retries.load(Ordering::SeqCst), "distinct_case_outcomes": distinct.lock().unwrap().len(), "samples": *samples.lock().unwrap(),
+        "interim_cases": envc[0].load(Ordering::SeqCst), "interim_relayed": envc[1].load(Ordering::SeqCst), "late_cases": envc[2].load(Ordering::SeqCst), "late_held": envc[3].load(Ordering::SeqCst),
         "wall_s": t0.elapsed().as_secs_f64()}));
 }
 
